@@ -87,6 +87,7 @@ DEFAULT_CFG = dict(
   condim_menu=[3],
   margin=False,
   geom_adhesion=False,  # passive contact adhesion (geom/pair `adhesion` attribute)
+  aniso_pairs=0.0,  # probability per moving geom of an explicit (plane, geom) pair with strongly anisotropic tangential friction (post-pass, own stream)
   multi_pulley=0.0,  # probability of one extra spatial tendon with 2-4 branches separated by pulleys (post-pass, own random stream)
   nkey=0,
   nuserdata=0,
@@ -480,6 +481,22 @@ def make_spec(cfg) -> dict:
     spec["option"].setdefault("wind", r.vec(3, -2, 2))
     spec["option"].setdefault("density", r.u(0.5, 50))
     spec["option"].setdefault("viscosity", r.u(0.0, 0.5))
+  if cfg.get("aniso_pairs"):
+    # post-pass with its own stream: explicit pairs between the ground plane and moving geoms whose two tangential friction coefficients differ by 3-6x
+    # (geom-derived contacts always have friction[0] == friction[1]; only <pair friction="a b ..."> makes the elliptic cone anisotropic)
+    rq = R([int(cfg["seed"]), 0xA150])
+    planes = [g["name"] for g in spec["world_geoms"] if g["type"] == "plane"]
+    if planes:
+      for b in bodies:
+        for g in b["geoms"]:
+          if g.get("contype", 1) == 0 or not rq.p(float(cfg["aniso_pairs"])):
+            continue
+          if any({q["geom1"], q["geom2"]} == {planes[0], g["name"]} for q in spec["pairs"]):
+            continue
+          hi = rq.u(0.6, 1.5)
+          lo = hi / rq.u(3.0, 6.0)
+          fr = [hi, lo] if rq.p(0.5) else [lo, hi]
+          spec["pairs"].append(dict(geom1=planes[0], geom2=g["name"], condim=rq.ch([3, 3, 4, 6]), friction=fr + [rq.lu(1e-3, 0.1), rq.lu(1e-4, 0.01), rq.lu(1e-4, 0.01)]))
   if cfg.get("multi_pulley") and len(sites) >= 2:
     # post-pass with its own stream: a spatial tendon with several pulleys (each branch is divided by the divisor of the LAST pulley before it,
     # divisors do not compound), optionally starting with a pulley, optionally wrapping a geom inside a branch
